@@ -113,8 +113,15 @@ func holeField() string {
 }
 func holeStr() string   { return string([]byte{holeByte("str", strFirst), holeByte("str", strRest)}) }
 
+// signedInts makes holeInt also produce negative numbers (SQL tiers).
+var signedInts = false
+
 // holeInt returns a 1-2 digit number as written and its value (no leading zero when 2 digits).
 func holeInt() (string, int) {
+	if signedInts && rtChoose("sign", 2) == 1 {
+		d := holeByte("digit", "123456789")
+		return string([]byte{'-', d}), -int(d - '0')
+	}
 	if rtChoose("digits", 2) == 0 {
 		d := holeByte("digit", "0123456789")
 		return string([]byte{d}), int(d - '0')
